@@ -267,6 +267,8 @@ func (d *Discovery) disconnectsLoop(ctx context.Context, sub event.Subscription)
 
 // discover finds new peers and reports whether it succeeded.
 func (d *Discovery) discover(ctx context.Context) bool {
+	verifEv(d, "discover.enter", "")
+	defer verifEv(d, "discover.exit", "")
 	size := d.set.Size()
 	want := d.set.Limit() - size
 	if want == 0 {
@@ -305,6 +307,7 @@ func (d *Discovery) discover(ctx context.Context) bool {
 
 			peer := p
 			wg.Go(func() error {
+				defer verifEv(d, "handle.exit", peer.ID)
 				if findCtx.Err() != nil {
 					log.Debug("find has been canceled, skip peer")
 					return nil //nolint:nilerr
